@@ -67,6 +67,10 @@ type vfLink struct {
 	wholeTrigger bool
 	// throttle: sleep after every data message so that a transfer lasts long enough for an event to land
 	throttle time.Duration
+	// latency: every delivered piece reaches the receiver this much later, in order (a delay line with its own goroutine)
+	latency  time.Duration
+	lagQ     []vfLagged
+	lagBusy  bool
 	line    []byte
 	lineOff int64
 	skip    int // raw bytes of a binary block still to pass
@@ -343,7 +347,7 @@ func (l *vfLink) deliver(data []byte, off int64) {
 	}
 	switch seg.Mode {
 	case 0:
-		l.out(out)
+		l.emit(out)
 	case 1, 2, 4:
 		pos := 0
 		for pos < len(out) {
@@ -365,7 +369,7 @@ func (l *vfLink) deliver(data []byte, off int64) {
 			if sz > len(out)-pos {
 				sz = len(out) - pos
 			}
-			l.out(out[pos : pos+sz])
+			l.emit(out[pos : pos+sz])
 			pos += sz
 		}
 	case 3:
@@ -373,12 +377,59 @@ func (l *vfLink) deliver(data []byte, off int64) {
 		for pos < len(out) {
 			i := bytes.IndexByte(out[pos:], '\n')
 			if i < 0 {
-				l.out(out[pos:])
+				l.emit(out[pos:])
 				break
 			}
-			l.out(out[pos : pos+i+1])
+			l.emit(out[pos : pos+i+1])
 			pos += i + 1
 		}
+	}
+}
+
+type vfLagged struct {
+	due  time.Time
+	data []byte
+}
+
+func (l *vfLink) setLatency(d time.Duration) {
+	l.mu.Lock()
+	l.latency = d
+	l.mu.Unlock()
+}
+
+// emit hands one piece to the receiver, through the delay line when a latency is set (or while the line still holds older pieces)
+func (l *vfLink) emit(p []byte) {
+	l.mu.Lock()
+	if l.latency <= 0 && len(l.lagQ) == 0 && !l.lagBusy {
+		l.mu.Unlock()
+		l.out(p)
+		return
+	}
+	l.lagQ = append(l.lagQ, vfLagged{due: time.Now().Add(l.latency), data: append([]byte(nil), p...)})
+	if !l.lagBusy {
+		l.lagBusy = true
+		go l.lagWorker()
+	}
+	l.mu.Unlock()
+}
+
+func (l *vfLink) lagWorker() {
+	for {
+		l.mu.Lock()
+		if len(l.lagQ) == 0 {
+			l.lagBusy = false
+			l.mu.Unlock()
+			return
+		}
+		it := l.lagQ[0]
+		l.mu.Unlock()
+		if d := time.Until(it.due); d > 0 {
+			time.Sleep(d)
+		}
+		l.out(it.data)
+		l.mu.Lock()
+		l.lagQ = l.lagQ[1:]
+		l.mu.Unlock()
 	}
 }
 
